@@ -144,6 +144,10 @@ def check_program(p, cfg, root):
     if mt != nt:
         viol.append(('targets', 'only in Makefile: %r; only in build.ninja: %r'
                      % (sorted(mt - nt), sorted(nt - mt))))
+    cfgsnaps = {b: os.path.join(root, 'snap-cfg-' + b) for b in prs}
+    fullsnaps = {b: os.path.join(root, 'snap-full-' + b) for b in prs}
+    for b in prs:
+        proj.snapshot(prs[b].bld, cfgsnaps[b])
     # (2) steps of a full build
     goals = ['all'] + sorted(p.aliases) + ['tests'] * bool(p.tests or p.test_args)
     logs = {}
@@ -180,6 +184,45 @@ def check_program(p, cfg, root):
         viol.append(('repeated-build', 'a second build re-ran %r under make, %r under ninja'
                      % (sorted(map(str, again['make'])) if isinstance(again['make'], set) else again['make'],
                         sorted(map(str, again['ninja'])) if isinstance(again['ninja'], set) else again['ninja'])))
+    for b in prs:
+        proj.snapshot(prs[b].bld, fullsnaps[b])
+    # (2c) a step's command does not depend on the goal it was reached through: every product
+    # that consumes another step's product is built alone from the configured (unbuilt) tree
+    produced = {}
+    for k, st in tabs['make'].items():
+        if k[0] != 'proc':
+            for o in st['outputs']:
+                produced[o] = k
+    single = sorted(k for k, st in tabs['make'].items()
+                    if k[0] != 'proc' and any(i in produced and produced[i] != k for i in st['inputs']))
+    for k in single:
+        got = {}
+        for b, pr in prs.items():
+            proj.restore(cfgsnaps[b], pr.bld)
+            rc, out, recs = pr.run([k[0]])
+            n += 1
+            if rc != 0:
+                got[b] = 'FAILED: ' + out[-150:]
+                continue
+            got[b] = {}
+            for rec, st in zip(recs, proj.steps_of(recs)):
+                kk = tuple(sorted(os.path.relpath(o, pr.bld) for o in st['key'])) \
+                    if isinstance(st['key'], frozenset) else ('proc', st['tool']) + tuple(norm_argv(st['argv'][1:]))
+                got[b][kk] = describe(pr, st, rec)
+        for b in prs:
+            if isinstance(got[b], str):
+                viol.append(('single-goal-fails', '%s: building only %r from a configured tree: %s' % (b, k[0], got[b])))
+                continue
+            for kk, d in sorted(got[b].items(), key=str):
+                if kk in recmap[b] and recmap[b][kk] != d:
+                    viol.append(('goal-dependent-command',
+                                 '%s: step %r runs %r when %r is the goal, but %r in a full build'
+                                 % (b, kk, d[1], k[0], recmap[b][kk][1])))
+        if all(isinstance(got[b], dict) for b in prs) and set(got['make']) != set(got['ninja']):
+            viol.append(('single-goal-steps', 'goal %r: make ran %r, ninja ran %r'
+                         % (k[0], sorted(map(str, got['make'])), sorted(map(str, got['ninja'])))))
+    for b, pr in prs.items():
+        proj.restore(fullsnaps[b], pr.bld)
     # (3) rebuild sets after modifying each source
     snaps = {b: os.path.join(root, 'snap-' + b) for b in prs}
     for b in prs:
